@@ -5,6 +5,7 @@ CONSTANTS
   D <- MCD
   NameSeq <- MCNames
   MaxRuns = 3
+  Foreign = FALSE
 INVARIANTS OrderIndependent RepeatIdempotent AnnotationExact AnySemantics AllSemantics
 PROPERTY AnyMonotone
 CHECK_DEADLOCK FALSE
